@@ -402,11 +402,11 @@ func (rx *roundExec) settle(ph *phaseRec) settleResult {
 			case g.blocked() && g.atSched:
 				c.held = true
 				res.held++
-			case g.blocked() && g.topKFR && c.CancelSeq == 0:
+			case g.blocked() && g.topKFR && c.CancelSeq == 0 && c.CancelDoneSeq == 0:
 				c.parked = true
 				c.topKFR = true
 				parkedKFR++
-			case g.blocked() && g.atGate && c.CancelSeq == 0:
+			case g.blocked() && g.atGate && c.CancelSeq == 0 && c.CancelDoneSeq == 0:
 				c.parked = true // a library that downloads on the caller's own goroutine
 				callerAtGate++
 			case g.blocked() && (g.topKFR || g.atGate) && ended:
